@@ -113,17 +113,26 @@ def sync_coq_work():
     os.makedirs(os.path.join(COQ_WORK, "Gen"), exist_ok=True)
 
 
+BASELINE_SRC = os.path.join(ROOT, "tools", "gen_baseline", "src_snapshot")
+
+
 def translate():
-    """regenerate Gen/*.v from the repository under test. Returns (ok, message, models, consts)."""
+    """regenerate Gen/*.v from the repository under test. Returns (ok, message, models, consts, failed_parts).
+    Each part of the translation (models, opcodes, capacities, test_image) fails closed on its own; a failed part is
+    taken from the committed baseline snapshot (the translation of the pinned, repaired tree) so that the
+    correspondence and the oracles can still run, and is reported in failed_parts."""
     sys.path.insert(0, os.path.join(ROOT, "tools"))
     import rs2v
+    failed = {}
     try:
-        models, consts = rs2v.emit(REPO, os.path.join(COQ_WORK, "Gen"))
-        return True, "translated %d models" % len(models), models, consts
+        models, consts = rs2v.emit(REPO, os.path.join(COQ_WORK, "Gen"), baseline=BASELINE_SRC, failed=failed)
     except rs2v.TranslateError as e:
-        return False, str(e), None, None
+        return False, str(e), None, None, {"all": str(e)}
     except Exception as e:  # fail closed on anything unexpected
-        return False, "translator crashed: %r" % (e,), None, None
+        return False, "translator crashed: %r" % (e,), None, None, {"all": repr(e)}
+    if failed:
+        return False, "; ".join("%s: %s" % kv for kv in sorted(failed.items())), models, consts, failed
+    return True, "translated %d models" % len(models), models, consts, {}
 
 
 def use_baseline_gen():
